@@ -102,7 +102,7 @@ theorem mem_keysOf_addAll (es l : List (E FKey Sel)) (x : FKey)
 
 theorem cview_mergeChild (s : Schema) (acc : List CF) (child : CF) (d : Bool) (lb : String)
     (h : ∀ e ∈ cview acc, matchKey s e.1 (cviewCF child).1 = (κa e.1 == κa (cviewCF child).1)) :
-    cview (Impl.mergeChild s acc child d lb) = add κa (cview acc) (cviewCF child).1 child.sels := by
+    cview (Impl.mergeChild false s acc child d lb) = add κa (cview acc) (cviewCF child).1 child.sels := by
   have hs := findSlot_eq_slot s acc (cviewCF child).1 h
   simp only [cviewCF] at hs
   unfold Impl.mergeChild add
@@ -116,19 +116,19 @@ theorem cview_mergeChild (s : Schema) (acc : List CF) (child : CF) (d : Bool) (l
 
 theorem cview_mergeChildren (s : Schema) (children acc : List CF) (d : Bool) (lb : String)
     (h : AgreeOn s (keysOf (cview acc) ++ keysOf (cview children))) :
-    cview (Impl.mergeChildren s acc children d lb) = addAll κa (cview acc) (cview children) := by
+    cview (Impl.mergeChildren false s acc children d lb) = addAll κa (cview acc) (cview children) := by
   induction children generalizing acc with
   | nil => rfl
   | cons c t ih =>
     simp only [Impl.mergeChildren, List.foldl_cons]
-    have hstep : cview (Impl.mergeChild s acc c d lb) = add κa (cview acc) (cviewCF c).1 c.sels := by
+    have hstep : cview (Impl.mergeChild false s acc c d lb) = add κa (cview acc) (cviewCF c).1 c.sels := by
       apply cview_mergeChild
       intro e he
       exact h e.1 (List.mem_append_left _ (List.mem_map_of_mem (f := (·.1)) he)) (cviewCF c).1
         (List.mem_append_right _ (by simp [keysOf, cview]))
-    have := ih (Impl.mergeChild s acc c d lb) (by
+    have := ih (Impl.mergeChild false s acc c d lb) (by
       intro a ha b hb
-      have conv : ∀ x, x ∈ keysOf (cview (Impl.mergeChild s acc c d lb)) ++ keysOf (cview t) →
+      have conv : ∀ x, x ∈ keysOf (cview (Impl.mergeChild false s acc c d lb)) ++ keysOf (cview t) →
           x ∈ keysOf (cview acc) ++ keysOf (cview (c :: t)) := by
         intro x hx
         rw [List.mem_append] at hx ⊢
@@ -156,7 +156,7 @@ theorem collect_view (s : Schema) (frags : List Frag) (vars : Vars) (sat : List 
       (occs : List Spec.Occ) (vis' : List String),
       Spec.occurrences frags vars (appliesOf sat) fuel sels dfr vis = some (occs, vis') →
       AgreeOn s (keysOf (cview acc) ++ keysOf (oview occs)) →
-      ∃ cfs, Impl.collect s frags vars sat fuel sels acc vis = some (cfs, vis') ∧
+      ∃ cfs, Impl.collect false s frags vars sat fuel sels acc vis = some (cfs, vis') ∧
         cview cfs = addAll κa (cview acc) (oview occs) := by
   intro fuel
   induction fuel with
@@ -175,10 +175,10 @@ theorem collect_view (s : Schema) (frags : List Frag) (vars : Vars) (sat : List 
           Spec.occurrences frags vars (appliesOf sat) fuel ss dfr' vis0 = some (inner, v1) →
           Spec.occurrences frags vars (appliesOf sat) fuel rest dfr v1 = some (os, v2) →
           AgreeOn s (keysOf (cview acc) ++ keysOf (oview (inner ++ os))) →
-          ∃ cfs, (match Impl.collect s frags vars sat fuel ss [] vis0 with
+          ∃ cfs, (match Impl.collect false s frags vars sat fuel ss [] vis0 with
               | none => none
               | some (children, vis'') =>
-                Impl.collect s frags vars sat fuel rest (Impl.mergeChildren s acc children df lb) vis'') =
+                Impl.collect false s frags vars sat fuel rest (Impl.mergeChildren false s acc children df lb) vis'') =
               some (cfs, v2) ∧
             cview cfs = addAll κa (cview acc) (oview (inner ++ os)) := by
         intro ss dfr' vis0 inner v1 os v2 df lb h1 h2 hag'
@@ -194,7 +194,7 @@ theorem collect_view (s : Schema) (frags : List Frag) (vars : Vars) (sat : List 
           rcases mem_keysOf_addAll _ _ x hx with h3 | h3
           · simp [keysOf] at h3
           · exact h3
-        have hmerge : cview (Impl.mergeChildren s acc children df lb) = addAll κa (cview acc) (oview inner) := by
+        have hmerge : cview (Impl.mergeChildren false s acc children df lb) = addAll κa (cview acc) (oview inner) := by
           rw [cview_mergeChildren s children acc df lb (by
             apply hag'.mono
             intro x hx
@@ -204,7 +204,7 @@ theorem collect_view (s : Schema) (frags : List Frag) (vars : Vars) (sat : List 
             · exact Or.inr (by simp only [keysOf, oview, List.map_append, List.mem_append]; exact Or.inl (hsubC x hx)))]
           rw [c2', addAll_assoc κa (oview inner) [] (cview acc) uniq_nil]
           rfl
-        obtain ⟨cfs, d1, d2⟩ := ih rest (Impl.mergeChildren s acc children df lb) v1 dfr os v2 h2 (by
+        obtain ⟨cfs, d1, d2⟩ := ih rest (Impl.mergeChildren false s acc children df lb) v1 dfr os v2 h2 (by
           apply hag'.mono
           intro x hx
           rw [List.mem_append] at hx ⊢
